@@ -140,6 +140,8 @@ def check(chk: Check) -> None:
                 for fs in (1, 250):
                     jobs.append(dict(integ=integ, physical=physical, case=case, frame_size=fs))
     for res in pmap(run, jobs):
+        if res is None:
+            continue
         chk.functions.update(res["funcs"])
         jb = res["job"]
         inst = f"{jb['integ']} physical={jb['physical']} cause={jb['cause']} slot={jb['slot']} frame_size={jb['frame_size']}"
